@@ -956,6 +956,14 @@ func c12(c *core.Ctx) {
 			c.Check("subtracting-write@"+shortFn(fn)+":"+objName(core.CalleeObj(s.Instr)), "who-may-write", okk, s.Instr.Pos(), "a write computed by subtraction must be the transfer's debit on the caller's own account or the burn")
 		}
 		c.Exactly("subtracting-writes", nSub, 2)
+		// inside package account the holdings move only with their journal: the equity trie root of an account (dropping it drops every
+		// holding of that account while the recorded supply stays) is stored by the raw setter and by the trie update at finalisation, and the
+		// raw setter is reached only from the redo / undo of the EquityRootLog
+		rootF := c.FieldVar("chain/types.AccountData", "EquityRoot")
+		closedWriters(c, "AccountData.EquityRoot", []string{"(*chain/account.Account).SetEquityRoot", "(*chain/account.Account).updateTrie", "(*chain/types.AccountData).DecodeRLP", "(*chain/types.AccountData).UnmarshalJSON", "(*chain/types.AccountData).Copy"}, fieldStores(c, rootF))
+		rawRoot := c.Method("chain/account.Account", "SetEquityRoot")
+		accRoot := c.Method("chain/types.AccountAccessor", "SetEquityRoot")
+		closedCallers(c, "SetEquityRoot", []string{"chain/account.redoEquityRoot", "chain/account.undoEquityRoot"}, rawRoot, accRoot)
 	})
 
 	// ------------------------------------------------------------------------------------------------------------------
